@@ -122,7 +122,7 @@ def classify(diags, w):
         it = None
         if site_sp is not None:
             it = _item_at(w.items, site_sp["line_start"])
-        if it is None and clause is not None:
+        if it is None and clause is not None and clause["item"] is not None:
             it = w.items[clause["item"]]
         if it is None:
             # span in prelude / hand-written text: cannot attribute -> machinery problem
@@ -198,6 +198,18 @@ def assign_failures(obs, failures, w):
                 if o["item"] == f["item"] and o["clause"] == f["clause"] and o["kind"] == f["clause_kind"]:
                     target = o
                     break
+        if target is None and f["clause_kind"] == "hint" and f["labels"]:
+            it = w.items[f["item"]]
+            oid = "%s@%s" % (f["labels"][0], it["fn"])
+            for o in obs:
+                if o["id"] == oid:
+                    target = o
+                    break
+            if target is None:
+                target = {"id": oid, "fn": it["fn"], "item": f["item"], "labels": list(f["labels"]), "kind": "hint",
+                          "clause": f["clause"], "props": sorted({l.split(".")[0] for l in f["labels"]}),
+                          "status": "failed", "failures": []}
+                obs.append(target)
         if target is None:
             for o in obs:
                 if o["item"] == f["item"] and o["kind"] == "implicit":
